@@ -468,7 +468,14 @@ func (h *harness) evaluate(bc *batchCtx, oc *outcome) {
 				diffAnswers(bc.coldPost.Q, oc.cold.Q, 4)+"\n"+diffMaps(bc.coldPost.Canon, oc.cold.Canon))
 		}
 	} else {
-		if !sameQ(bc.coldPre.Q, oc.cold.Q) || !sameM(bc.coldPre.Raw, oc.cold.Raw) {
+		// A run with retry=true issues the batch a second time, without a fault, after the failure.  When the child DIED
+		// (the known race of a refused batch kills the process at an arbitrary later instant), it may have died after the
+		// re-issued batch committed and before its `write-returned ok` marker: then the file rightly shows that batch.
+		// All-or-nothing for the re-issued batch is what can be demanded: the pre-batch state or the complete post state.
+		diedInRetry := oc.rep == nil && t.retry && bc.coldPost != nil && sameQ(bc.coldPost.Q, oc.cold.Q) && sameM(bc.coldPost.Canon, oc.cold.Canon)
+		if diedInRetry {
+			count("outcome:died-after-retry-committed")
+		} else if !sameQ(bc.coldPre.Q, oc.cold.Q) || !sameM(bc.coldPre.Raw, oc.cold.Raw) {
 			h.fail("reopened-differs-after-failure:"+tag, "the batch failed / the process died before commit but the reopened file differs from the pre-batch file", t,
 				diffAnswers(bc.coldPre.Q, oc.cold.Q, 4)+"\n"+diffMaps(bc.coldPre.Raw, oc.cold.Raw))
 		}
